@@ -1187,7 +1187,10 @@ func (n *normalizer) expand(c *callee, st ast.Stmt, kind string) ([]ast.Stmt, bo
 		switch x := s.(type) {
 		case *ast.ReturnStmt:
 			if len(x.Results) != 0 && len(x.Results) != nRes {
-				okRet = false // return f() with a tuple
+				// "return f()" with a tuple: r1, r2 = f() is the same assignment
+				if _, isCall := ast.Unparen(x.Results[0]).(*ast.CallExpr); !isCall || len(x.Results) != 1 {
+					okRet = false
+				}
 			}
 			usedLabel = true
 			l := append(assignResults(x), &ast.BranchStmt{Tok: token.BREAK, Label: ast.NewIdent(label)})
@@ -1227,7 +1230,9 @@ func (n *normalizer) expand(c *callee, st ast.Stmt, kind string) ([]ast.Stmt, bo
 	stmts = replaceReturns(stmts)
 	if tail != nil {
 		if len(tail.Results) != 0 && len(tail.Results) != nRes {
-			okRet = false
+			if _, isCall := ast.Unparen(tail.Results[0]).(*ast.CallExpr); !isCall || len(tail.Results) != 1 {
+				okRet = false
+			}
 		}
 		stmts = append(stmts, assignResults(tail)...)
 	}
